@@ -17,7 +17,7 @@
 (* An array literal is the tree ARRAY(ARRAY(row 1 ...), ARRAY(row 2 ...)).  *)
 EXTENDS Naturals, Sequences, TLC
 
-NumToks == {"1", "2", "3"}
+NumToks == {"1", "2", "3", "TRUE"}     \* (the logical literal is lexed like a number)
 StrToks == {"\"s\""}
 RefToks == {"A1", "B2", "C3", "B2:C3"}
 Operands == NumToks \cup StrToks \cup RefToks
